@@ -289,7 +289,7 @@ theorem c17_emit_exact_watch (cfg : ECfg) (hp : PlainW cfg) (k : Kind) (cs : ECa
   · rw [h2]; cases cs <;> simp [ESt.init, markToE]
   · rw [h3]; cases cs <;> simp [ESt.init]
 
-example : PlainW ({ watchCpu := true, varSizes := [8, 1], read := fun _ => 2 } : ECfg) := by
+example : PlainW ({ base := { maxStack := 1024 }, watchCpu := true, varSizes := [8, 1], read := fun _ => 2 } : ECfg) := by
   constructor
   · constructor <;> simp [ASYNC_IDX, Gen.EventTab.ASYNC_IDX]
   · rfl
@@ -360,7 +360,7 @@ theorem c17_dropped_with_call (cfg : ECfg) (hp : PlainT cfg) (hfix : cfg.fixIdx 
   obtain ⟨h1, h2, h3, _⟩ := dropped_call cfg hp hfix k c s d hg hm hd hs
   exact ⟨h1, h2, h3⟩
 
-example : PlainT ({ base := { threshold := 50 }, watchCpu := true, varSizes := [8] } : ECfg) := by
+example : PlainT ({ base := { threshold := 50, maxStack := 1024 }, watchCpu := true, varSizes := [8] } : ECfg) := by
   constructor <;> simp [ASYNC_IDX, Gen.EventTab.ASYNC_IDX]
 
 example : GoodT (ESt.init ({ base := { threshold := 50 }, watchCpu := true } : ECfg) [] []) 0 := by
